@@ -628,6 +628,8 @@ impl<'c> Interp<'c> {
             }
             6 => {
                 let try_ = r.b(4) & 1 == 0 || (route.is_dyn() && !DYN_CLAIMED_UNWINDS);
+                // "every request ... reserve" includes the degenerate reserve(0)
+                let size = if r.b(5) % 4 == 0 { 0 } else { size };
                 what = format!("[claimed original] reserve({size}) try={try_} via {route:?}");
                 match (try_, guard(|| orig.x_reserve(route, size, try_))) {
                     (true, Outcome::Err) | (false, Outcome::Panic(_)) | (false, Outcome::Err) => {}
